@@ -321,7 +321,7 @@ def pyStructPack (big : Bool) : List PyFmt → List Int → Except String (List 
   | [], [] => Except.ok []
   | PyFmt.x :: fs, vs => (pyStructPack big fs vs).map (fun r => (0 : Int) :: r)
   | f :: fs, v :: vs =>
-    if 0 ≤ v ∧ v < 256 ^ f.size then
+    if 0 ≤ v ∧ v.toNat < 256 ^ f.size then       -- (a test on naturals: the kernel can evaluate it on casts)
       (pyStructPack big fs vs).map (fun r => (if big then (pyLeBytes f.size v).reverse else pyLeBytes f.size v) ++ r)
     else Except.error "struct.error"
   | _, _ => Except.error "struct.error"
